@@ -214,6 +214,55 @@ func ruleR09_2(w *World, r *Report) {
 		}
 		r.Check(reach, owner+"/every successful end is recorded", pos, "rollbackOps updated on every successful path", "a successful transaction can end without its buffer being recorded (and delivered): the operation identifier its marker consumed is neither replayed by a later rollback nor pushed")
 	}
+	// every successful local end delivers the buffer: from the true edge of the isLocal test (under success) each path
+	// reaches DeliverTransaction (a "nothing was executed" shortcut leaves the marker's sequence number as a gap: the
+	// server refuses every later push of the replica as missing operations)
+	for _, b := range fn.Blocks {
+		if len(b.Instrs) == 0 || len(fn.Params) < 4 {
+			continue
+		}
+		ifi, isIf := b.Instrs[len(b.Instrs)-1].(*ssa.If)
+		if !isIf {
+			continue
+		}
+		l := normLit(condEdge{ifi.Cond, true})
+		if l.Kind != "bool" || throughHelperParam(l.X) != ssa.Value(fn.Params[3]) {
+			continue
+		}
+		entry := b.Succs[0]
+		if !l.Pol {
+			entry = b.Succs[1]
+		}
+		// only the test that guards the delivery (the rollbackOps test above handles recording)
+		guards := false
+		for _, c := range callsNamed(fn, "DeliverTransaction") {
+			if entry == c.Block() || entry.Dominates(c.Block()) {
+				guards = true
+			}
+		}
+		if !guards {
+			// the delivery is not below this edge at all: judged by the deliver clause above
+			reachable := false
+			for _, c := range callsNamed(fn, "DeliverTransaction") {
+				if reachableBlock(entry, c.Block()) {
+					reachable = true
+				}
+			}
+			if !reachable {
+				continue
+			}
+		}
+		reach, _ := mustReachFromBlock(entry, func(in ssa.Instruction) bool {
+			if ci, ok := in.(ssa.CallInstruction); ok && calleeName(ci) == "DeliverTransaction" {
+				return true
+			}
+			if ret, ok := in.(*ssa.Return); ok && returnsNonNilLast(ret) {
+				return true
+			}
+			return false
+		})
+		r.Check(reach, owner+"/every successful local end is delivered", u.Pos(ifi.Pos()), "DeliverTransaction on every local path", "a successful local transaction can end without being delivered (e.g. when it executed nothing): the sequence number its marker took is never pushed, and the server refuses all later operations of the replica as missing operations")
+	}
 	// SetNumOfOps(len(opBuffer)) before delivery on withOp paths
 	arg := canonName(setNum.Common().Args[len(setNum.Common().Args)-1])
 	okNum := arg == "len($0.txCtx.opBuffer)" && !reachableFrom(deliver.(ssa.Instruction), setNum.(ssa.Instruction))
@@ -438,4 +487,23 @@ func ruleR09_5(w *World, r *Report) {
 		}
 		r.Check(good, "ExecuteRemoteTransactionWithCtx/apply only after the check", u.Pos(c.Pos()), "operations of a multi-operation unit are applied only after BeginTransaction", "operations of a unit longer than one are applied on a path that skipped the count check")
 	}
+}
+
+// reachableBlock: is there a CFG path from block a to block b?
+func reachableBlock(a, b *ssa.BasicBlock) bool {
+	seen := map[*ssa.BasicBlock]bool{}
+	work := []*ssa.BasicBlock{a}
+	for len(work) > 0 {
+		x := work[len(work)-1]
+		work = work[:len(work)-1]
+		if x == b {
+			return true
+		}
+		if seen[x] {
+			continue
+		}
+		seen[x] = true
+		work = append(work, x.Succs...)
+	}
+	return false
 }
